@@ -398,10 +398,17 @@ func ruleSamplesReach(w *World, r *Report, pfx string) {
 		return
 	}
 	var ta *ssa.TypeAssert
-	for _, b := range mk.Blocks {
-		for _, in := range b.Instrs {
-			if t, ok := in.(*ssa.TypeAssert); ok && t.CommaOk && typeName(t.AssertedType) == "decor.EwmaDecorator" {
-				ta = t
+	var units []*ssa.Function
+	for f := range w.unit(mk) {
+		units = append(units, f)
+	}
+	sort.Slice(units, func(i, j int) bool { return units[i].Pos() < units[j].Pos() })
+	for _, f := range units {
+		for _, b := range f.Blocks {
+			for _, in := range b.Instrs {
+				if t, ok := in.(*ssa.TypeAssert); ok && t.CommaOk && typeName(t.AssertedType) == "decor.EwmaDecorator" {
+					ta = t
+				}
 			}
 		}
 	}
@@ -414,7 +421,7 @@ func ruleSamplesReach(w *World, r *Report, pfx string) {
 			bad = "moving-average decorators are not looked up through unwrap: a wrapped estimator (OnComplete(EwmaETA(...))) never receives a sample"
 		} else {
 			// nested range loops: inner over the group, outer over decorGroups (array of length 2)
-			loops := naturalLoops(mk)
+			loops := naturalLoops(ta.Parent())
 			inner := innermostLoop(loops, ta.Block())
 			var outer *loopInfo
 			for _, l := range loops {
@@ -432,13 +439,31 @@ func ruleSamplesReach(w *World, r *Report, pfx string) {
 				}
 			}
 			// appended under ok to bState.ewmaDecorators
+			// (directly, or as the result of the helper that does the lookup and appends)
 			okApp := false
-			for _, b := range mk.Blocks {
-				for _, in := range b.Instrs {
-					if st, ok := in.(*ssa.Store); ok {
-						if f, ok := fieldOf(st.Addr); ok && f.Owner == tBState && f.Name == "ewmaDecorators" {
-							if ac, ok := st.Val.(*ssa.Call); ok && isBuiltinCall(&ac.Call, "append") {
-								okApp = true
+			hasAppend := func(f *ssa.Function) bool {
+				for _, b := range f.Blocks {
+					for _, in := range b.Instrs {
+						if ac, ok := in.(*ssa.Call); ok && isBuiltinCall(&ac.Call, "append") && strings.Contains(ac.Type().String(), "EwmaDecorator") {
+							return true
+						}
+					}
+				}
+				return false
+			}
+			for _, f := range units {
+				for _, b := range f.Blocks {
+					for _, in := range b.Instrs {
+						if st, ok := in.(*ssa.Store); ok {
+							if fr, ok := fieldOf(st.Addr); ok && fr.Owner == tBState && fr.Name == "ewmaDecorators" {
+								if ac, ok := st.Val.(*ssa.Call); ok {
+									if isBuiltinCall(&ac.Call, "append") && f == ta.Parent() {
+										okApp = true
+									}
+									if ac.Call.StaticCallee() == ta.Parent() && f != ta.Parent() && hasAppend(ta.Parent()) {
+										okApp = true
+									}
+								}
 							}
 						}
 					}
@@ -456,67 +481,132 @@ func ruleSamplesReach(w *World, r *Report, pfx string) {
 			continue
 		}
 		bad := ""
-		// the spawned closure calls EwmaUpdate once with (n, iterDur)
-		var upd *ssa.Call
-		var updFn *ssa.Function
-		for _, c := range clo.AnonFuncs {
-			for _, b := range c.Blocks {
-				for _, in := range b.Instrs {
-					if call, ok := in.(*ssa.Call); ok && call.Call.IsInvoke() && call.Call.Method.Name() == "EwmaUpdate" {
-						upd, updFn = call, c
+		seen := false
+		// the closure (or a helper it calls) spawns, once per collected estimator, a
+		// goroutine that calls EwmaUpdate(amount, iterDur)
+		_, over := w.enumPaths(clo, pathOpts{InlineDepth: 3, Inline: w.helperInline(clo)}, func(p *Path) {
+			if bad != "" {
+				return
+			}
+			for _, ev := range p.Events {
+				g, ok := ev.In.(*ssa.Go)
+				if !ok {
+					continue
+				}
+				for _, t := range w.goTargets(g) {
+					upd := ewmaUpdateCall(t)
+					if upd == nil {
+						continue
 					}
-				}
-			}
-		}
-		if upd == nil {
-			bad = "no EwmaUpdate call: moving-average decorators never receive samples from this entry point"
-		} else {
-			// duration = the method's iterDur parameter
-			if !w.isParamOf(upd.Call.Args[1], off.Fn, len(off.Fn.Params)-1) {
-				bad = "the duration handed to the estimators is not the caller's iteration duration"
-			}
-			// amount: n for Incr; current - s.current for SetCurrent
-			if strings.HasSuffix(spec, "EwmaIncrInt64") {
-				if !w.isParamOf(upd.Call.Args[0], off.Fn, 1) {
-					bad = "the amount handed to the estimators is not the increment"
-				}
-			} else {
-				o := w.origin(upd.Call.Args[0])
-				sub, ok := o.(*ssa.BinOp)
-				if !ok || sub.Op != token.SUB || !w.isParamOf(sub.X, off.Fn, 1) || !isLoad(Val{V: sub.Y}, tBState, "current") {
-					bad = "the amount handed to the estimators is not (new current - old current)"
-				} else if in, ok := ssa.Value(sub).(ssa.Instruction); ok && in.Parent() != clo {
-					bad = "the amount (new current - old current) is computed inside the spawned goroutine: it reads current concurrently with the closure's own store (data race; estimators usually see 0)"
-				} else if fnStoresBefore(clo, sub) {
-					bad = "the amount is computed after current was overwritten"
-				}
-			}
-			// one goroutine per collected decorator (WG rule) over s.ewmaDecorators
-			okRange := false
-			for _, l := range naturalLoops(clo) {
-				for b := range l.Blocks {
-					for _, in := range b.Instrs {
-						if g, ok := in.(*ssa.Go); ok {
-							for _, t := range w.goTargets(g) {
-								if t == updFn {
-									cl := classifyCountingLoop(l)
-									if cl.ok && cl.step == 1 {
-										if lc, ok := cl.bound.(*ssa.Call); ok && isBuiltinCall(&lc.Call, "len") && isLoad(Val{V: lc.Call.Args[0]}, tBState, "ewmaDecorators") {
-											okRange = true
-										}
-									}
+					seen = true
+					// origin of an argument, followed through the frames of inlined helpers
+					trace := func(v ssa.Value) (ssa.Value, *Frame) {
+						fr := ev.F
+						for i := 0; i < 8; i++ {
+							o := w.origin(v)
+							par, isP := o.(*ssa.Parameter)
+							if !isP {
+								return o, fr
+							}
+							var hf *Frame
+							for f := ev.F; f != nil; f = f.Parent {
+								if f.Fn == par.Parent() && f.Parent != nil {
+									hf = f
 								}
+							}
+							if hf == nil {
+								return o, fr
+							}
+							idx := -1
+							for k, q := range hf.Fn.Params {
+								if q == par {
+									idx = k
+								}
+							}
+							if idx < 0 || idx >= len(hf.Args) {
+								return o, fr
+							}
+							v, fr = hf.Args[idx].V, hf.Args[idx].F
+						}
+						return v, fr
+					}
+					isAPIParam := func(v ssa.Value, idx int) bool {
+						o, _ := trace(v)
+						par, ok := o.(*ssa.Parameter)
+						return ok && par.Parent() == off.Fn && idx < len(off.Fn.Params) && off.Fn.Params[idx] == par
+					}
+					if !isAPIParam(upd.Call.Args[1], len(off.Fn.Params)-1) {
+						bad = "the duration handed to the estimators is not the caller's iteration duration"
+					}
+					if strings.HasSuffix(spec, "EwmaIncrInt64") {
+						if !isAPIParam(upd.Call.Args[0], 1) {
+							bad = "the amount handed to the estimators is not the increment"
+						}
+					} else {
+						o, _ := trace(upd.Call.Args[0])
+						sub, ok := o.(*ssa.BinOp)
+						if !ok || sub.Op != token.SUB || !isAPIParam(sub.X, 1) || !isLoad(Val{V: sub.Y}, tBState, "current") {
+							bad = "the amount handed to the estimators is not (new current - old current)"
+						} else if sub.Parent() == t {
+							bad = "the amount (new current - old current) is computed inside the spawned goroutine: it reads current concurrently with the closure's own store (data race; estimators usually see 0)"
+						} else {
+							// no store to current precedes the subtraction on this path
+							si := -1
+							for _, e2 := range p.Events {
+								if e2.In == ssa.Instruction(sub) {
+									si = e2.Idx
+								}
+							}
+							for _, e2 := range p.Events {
+								if f, _, ok := p.storeField(e2); ok && f.Owner == tBState && f.Name == "current" && si >= 0 && e2.Idx < si {
+									bad = "the amount is computed after current was overwritten"
+								}
+							}
+							if si < 0 {
+								bad = "the subtraction (new current - old current) is not executed by the closure before the spawn"
 							}
 						}
 					}
+					// one goroutine per collected decorator: the spawn sits in a unit-step loop over s.ewmaDecorators
+					okRange := false
+					for _, l := range naturalLoops(g.Parent()) {
+						if !l.Blocks[g.Block()] {
+							continue
+						}
+						cl := classifyCountingLoop(l)
+						if cl.ok && cl.step == 1 {
+							if lc, ok := cl.bound.(*ssa.Call); ok && isBuiltinCall(&lc.Call, "len") && isLoad(Val{V: lc.Call.Args[0]}, tBState, "ewmaDecorators") {
+								okRange = true
+							}
+						}
+					}
+					if !okRange {
+						bad = orStr(bad, "the update is not issued once for every collected estimator")
+					}
 				}
 			}
-			if !okRange {
-				bad = orStr(bad, "the update is not issued once for every collected estimator")
-			}
+		})
+		if over {
+			r.Undecided(rule, "API:"+spec+" closure", w.pos(clo.Pos()), "path cap")
+			continue
+		}
+		if !seen {
+			bad = "no EwmaUpdate call: moving-average decorators never receive samples from this entry point"
 		}
 		r.Check(bad == "", rule, "API:"+spec+" closure", w.pos(clo.Pos()), "EwmaUpdate(amount, iterDur) once per collected estimator", bad)
 	}
+}
+
+// ewmaUpdateCall: the EwmaUpdate invocation in fn, if any.
+func ewmaUpdateCall(fn *ssa.Function) *ssa.Call {
+	for _, b := range fn.Blocks {
+		for _, in := range b.Instrs {
+			if call, ok := in.(*ssa.Call); ok && call.Call.IsInvoke() && call.Call.Method.Name() == "EwmaUpdate" {
+				return call
+			}
+		}
+	}
+	return nil
 }
 
 // fnStoresBefore: a store to bState.current precedes instruction at in its function.
